@@ -26,7 +26,7 @@ from typing import cast, TYPE_CHECKING
 
 import attrs
 import numpy as np
-from scipy.linalg import cossin
+from scipy.linalg import cossin, schur
 
 from cirq import ops
 from cirq.circuits.frozen_circuit import FrozenCircuit
@@ -309,17 +309,10 @@ def _msb_demuxer(
     u1 = u1.astype(np.complex128)
     u2 = u2.astype(np.complex128)
     u = u1 @ u2.T.conjugate()
-    if predicates.is_hermitian(u):
-        # If `u` is Hermitian, use the more accurate `eigh` method.
-        dsquared, V = np.linalg.eigh(u)
-    else:
-        dsquared, V = np.linalg.eig(u)
-        # Use Gram–Schmidt to obtain orthonormal eigenvectors for each of the subspaces.
-        for i in range(V.shape[0]):
-            for j in range(i):
-                if np.abs(dsquared[i] - dsquared[j]) < 1e-9:
-                    V[:, i] -= np.dot(V[:, j].conj(), V[:, i]) * V[:, j]
-            V[:, i] /= np.linalg.norm(V[:, i])  # normalize.
+    # `u` is unitary, hence normal: its complex Schur form is diagonal and the Schur vectors are an
+    # orthonormal eigenbasis, also for repeated and for nearly equal eigenvalues.
+    T, V = schur(u, output='complex')
+    dsquared = np.diag(T)
     dsquared = dsquared.astype(np.complex128)
     d = np.sqrt(dsquared)
     D = np.diag(d)
